@@ -537,6 +537,7 @@ package ring
 //@   property C05 C01
 //@   requires ringDesc != nil && !isnil(ringDesc.Ingesters) && descTokensOK(ringDesc) && !isnil(r.trackedRingZones)
 //@   ensures  desc: same(r.ringDesc, ringDesc)
+//@   ensures  desc_unchanged: r.ringDesc != nil && same(r.ringDesc.Ingesters, old(ringDesc).Ingesters) && same(r.cfg, old(r).cfg)
 //@   ensures  sorted: sortedStrict(r.ringTokens)
 //@   ensures  owners: forall i int :: 0 <= i && i < len(r.ringTokens) ==> in(r.ringTokens[i], r.ringInstanceByToken)
 //@   ensures  zones_of_owners: forall t uint32 :: in(t, r.ringInstanceByToken) ==> in(r.ringInstanceByToken[t].InstanceID, r.ringDesc.Ingesters) && r.ringDesc.Ingesters[r.ringInstanceByToken[t].InstanceID].Zone == r.ringInstanceByToken[t].Zone
